@@ -26,7 +26,8 @@ def confirm(sid, src):
     dst = os.path.join(SEEDED, sid)
     os.makedirs(dst, exist_ok=True)
     for f in ('patch.diff', 'demo.py', 'meta.json'):
-        shutil.copy(os.path.join(src, f), os.path.join(dst, f))
+        if os.path.abspath(src) != os.path.abspath(dst):
+            shutil.copy(os.path.join(src, f), os.path.join(dst, f))
     wt = '/tmp/seedconfirm-%s' % sid
     sh('git -C /repo worktree remove --force %s' % wt)
     rc, out = sh('git -C /repo worktree add -q --detach %s HEAD' % wt)
